@@ -6,9 +6,12 @@
   variables `0 … nin-1` are the program inputs (the leaves of the operator's argument), equation `k`
   defines variable `nin + k`.  Each equation names
 
-  * the *class* of its primitive (`PClass`, the trusted per-primitive table lives in the translator
-    `harness/translate_jaxpr.py` and is stated as the hypotheses `Interp.Sound` of the soundness theorem),
-  * a primitive identifier (index into the translator's primitive-name table; only the semantics reads it),
+  * the *class* of its primitive (`PClass`, the trusted per-primitive table lives in `harness/jaxpr_ir.py`, is
+    stated as the hypotheses `Interp.Sound` / `Interp.SoundAt` of the soundness theorems and is validated on the JAX
+    primitives on every run, `harness/jaxpr_table.py`),
+  * a primitive identifier (index into the translator's primitive-name table; only the semantics reads it — the
+    verdict does not, `check_relabel`: every equation may be given its own id so that one interpretation can give
+    each equation its own static parameters),
   * `params` – operands that must be input-independent (gather/scatter indices, the predicate of
     `select_n`, the start indices of `dynamic_slice`, …),
   * `args`   – the data operands.
